@@ -1,0 +1,37 @@
+//! Hook for external verification harnesses. This module only exists when the
+//! crate is compiled with `--cfg gdsl_verif`; it is not part of the public API.
+//!
+//! The sync node types call [`lock_point`] immediately before every `read()` /
+//! `write()` of a node's adjacency lock. With no callback installed the call
+//! returns at once. A harness may install a callback to observe the sequence
+//! of lock acquisitions, to schedule threads deterministically at these points
+//! and to probe whether the following acquisition would block.
+
+use std::fmt::Display;
+use std::sync::{Arc, RwLock, TryLockError};
+
+/// `callback(key of the node, is_write, probe)`; `probe(as_write)` answers
+/// whether acquiring the lock in that mode would block right now.
+pub type Callback = dyn Fn(&str, bool, &dyn Fn(bool) -> bool) + Send + Sync;
+
+static CALLBACK: RwLock<Option<Arc<Callback>>> = RwLock::new(None);
+
+/// Installs (or, with `None`, removes) the process-wide callback.
+pub fn install(callback: Option<Arc<Callback>>) {
+    *CALLBACK.write().unwrap_or_else(|e| e.into_inner()) = callback;
+}
+
+/// Called right before `lock.read()` (`is_write == false`) or `lock.write()`.
+pub fn lock_point<T, K: Display>(lock: &RwLock<T>, is_write: bool, key: &K) {
+    let callback = CALLBACK.read().unwrap_or_else(|e| e.into_inner()).clone();
+    if let Some(callback) = callback {
+        let probe = |as_write: bool| -> bool {
+            if as_write {
+                matches!(lock.try_write(), Err(TryLockError::WouldBlock))
+            } else {
+                matches!(lock.try_read(), Err(TryLockError::WouldBlock))
+            }
+        };
+        callback(&key.to_string(), is_write, &probe);
+    }
+}
